@@ -106,6 +106,7 @@ func cmdCheck(args []string) int {
 	timeout := fs.Int("timeout", 0, "per-solver timeout in seconds (default quick 20, thorough 60)")
 	verbose := fs.Bool("v", false, "verbose")
 	obRe := fs.String("ob", "", "debugging: only obligations whose name matches this regexp (never used by ./check)")
+	fs.BoolVar(&debugCoverBlocks, "coverblocks", false, "debugging: a reachability (vacuity) obligation for every block that holds a call")
 	fs.BoolVar(&debugSplit, "split", false, "debugging: split postconditions into their top-level conjuncts")
 	fs.Parse(args)
 	t0 := time.Now()
